@@ -38,9 +38,10 @@ THEOREMS = ["C29_chunks_with_overlap_layout", "C29_totality", "C29_windows_conti
 
 
 def main(ctx):
-    ctx.rule = ("exhaustive: Item lengths<=12 x limits{None,0..8 (12 thorough)} x overlaps<=5 (8) x CLS/SEP present/absent; "
-                "Pair first<=2 (12) x second<=8 (12) x limits{None,0..10 (12)} x overlaps<=3 (8) x CLS/SEP (quick: mixed "
-                "CLS/SEP thinned); plus seeded random (lengths<=60, limits around the overhead and the sequence length, "
+    ctx.rule = ("exhaustive small scope: Item lengths<=12 x limits{None,0..8 (thorough: 12)} x overlaps<=5 (8) x CLS/SEP "
+                "present/absent; Pair first in {0,1,2} (thorough {0,1,2,3,5,8,12}) x second<=8 (12) x limits {None, 0, "
+                "fixed-1, fixed+0..6 (9)} where fixed = special tokens + first length x overlaps<=3 (8) x CLS/SEP (quick: "
+                "mixed CLS/SEP thinned); plus seeded random (lengths<=60, limits around the overhead and the sequence length, "
                 "usize::MAX-k, overlap =/</> window, unknown special tokens, failing encodings). Non-trivial = the call "
                 "returned at least one chunk, panicked or failed (tags not starting with `trivial`); distinct = distinct "
                 "input lines")
@@ -56,7 +57,8 @@ def main(ctx):
     ctx.audit(GROUP)
     failed = ctx.prove(GROUP, "Props_C29", THEOREMS)
     bindir = ctx.harness(GROUP, profile="release", bins=["c29"])
-    cases = ctx.gen_exec(bindir, "c29", ctx.n(1000, 30000), inputs=ctx.replay_inputs())
+    cases = ctx.gen_exec(bindir, "c29", ctx.n(1000, 12000), inputs=ctx.replay_inputs())
+    shard = ctx.n(400, 1500)
 
     # Known finding F15: a failing case is attributed to F15 only if the *only* clause of the
     # oracle that fails is "the final partial chunk does not overlap its predecessor"
@@ -65,7 +67,7 @@ def main(ctx):
     f15 = set()
     if cand:
         not_f15, _, err = ctx.coq_eval_cases(GROUP, REQ, [c["term"] for c in cand],
-                                             agree="only_f15", prop_ok="only_f15", tag="f15")
+                                             agree="only_f15", prop_ok="only_f15", shard=shard, tag="f15")
         if err:
             raise vf.CheckerBroken("evaluation of only_f15 failed: " + err)
         bad = set(not_f15)
@@ -74,7 +76,7 @@ def main(ctx):
     def classify(c):
         return "F15" if c["input"] in f15 else None
 
-    ctx.correspond("encode_chunks", GROUP, REQ, cases, classify=classify, show="show",
+    ctx.correspond("encode_chunks", GROUP, REQ, cases, classify=classify, show="show", shard=shard,
                    fn_name="Chunks.ModelChunks.encode_chunks (rten-text Tokenizer::encode_chunks, split.rs chunks_with_overlap)")
     ctx.extra["f15_cases"] = len(f15)
     if failed and not ctx.violations:
